@@ -183,6 +183,25 @@ def run(ctx):
     ctx.cov["extraction_crosschecked_in_coq"] = n_xc
     if not ok_xc:
         fails.append({"kind": "correspondence", "file": "extracted model vs vm_compute inside Coq (folding_model)", "log": log_xc})
+    # the same for the symbol-table model: a few real op logs replayed by vm_compute, document_symbol compared with the
+    # extracted model's answer (cross-checks the driver's op parser as well)
+    xs = []
+    for w, d in zip(wss, dumps):
+        if len(xs) >= (3 if ctx.quick else 10):
+            break
+        if isinstance(d, dict) and d.get("oplog") and len(d["oplog"]) <= 120:
+            ft = dict((a, b) for a, b in w["files"])
+            qs = [["outline", fid] for _p, fid in d["fids"].items()]
+            o = L.model_lines(exe, "sym", [L.sym_case_line(d, ft, sk_index, qs)])[0]
+            try:
+                res = json.loads(o)["results"]
+            except Exception:
+                continue
+            xs.append((d, {fid: r for (_p, fid), r in zip(d["fids"].items(), res)}))
+    ok_xs, n_xs, log_xs = L.coq_crosscheck_sym(xs, "c18")
+    ctx.cov["extraction_crosschecked_in_coq"] = n_xc + n_xs
+    if not ok_xs:
+        fails.append({"kind": "correspondence", "file": "extracted model vs vm_compute inside Coq (run_ops + document_symbol)", "log": log_xs})
 
     # ---------------- verdict
     def size_of(f):
